@@ -33,11 +33,20 @@ def generate(rng, opts):
     bias = r.choice([None, None, None, {"rec": 5, "opt": 4}, {"opt": 5}, {"union": 4, "rec": 2}, {"list": 3, "reglist": 3}])
     topts = dict(opts, _type_bias=bias) if bias else opts
     t = lg.gen_type(r, 0, topts)
+    records_of_options = r.random() < 0.06
+    if records_of_options:
+        # the shape on which the Form prediction of a lazy field projection has most to do: (optional) records whose
+        # fields are of option type themselves, in every pairing of option node classes and index widths; the whole
+        # array is lazy with a declared Form and the first thing that happens to it is a[key]
+        names = r.sample(["x", "y", "z", "w"], r.choice([1, 2, 2, 3]))
+        leaf = lambda: ["num", r.choice(lg.NUMERIC)] if r.random() < 0.8 else ["str"]
+        rec = ["rec", [[k, ["opt", leaf()] if r.random() < 0.7 else leaf()] for k in names], r.choice([None, None, "Rec"])]
+        t = r.choice([["opt", rec], ["opt", rec], ["opt", rec], rec, ["list", ["opt", rec]]])
     n = r.choice([0, 1, 2, 3, 3, 5, 8])
     truth = lg.SpecGen(r, opts).array(t, n)
-    declare_form = r.random() < 0.6
+    declare_form = r.random() < 0.6 or records_of_options
     declare_length = r.random() < 0.7
-    lazy = lg.insert_virtuals(r, truth, r.choice([1, 1, 2, 3]), declare_form, declare_length)
+    lazy = lg.insert_virtuals(r, truth, r.choice([1, 1, 2, 3]), declare_form, declare_length, force_root=records_of_options)
     if any(k.isdigit() for k in lg.keys_of(truth)):
         # tuples somewhere: the slices will use positional keys ("0", "1"), which also select a field of a *named* record
         # by position - that does depend on the order in which a generator returns the fields
@@ -101,7 +110,7 @@ def generate(rng, opts):
         events.append(ev)
         nslots += 1
     first_projection = False
-    if info["keys"] and r.random() < 0.3:
+    if info["keys"] and (r.random() < 0.3 or records_of_options):
         # the Form prediction of a lazy field projection, for every shape of record: the first thing that happens to
         # the untouched lazy array is a[key] (nothing has been materialised or cached yet)
         first_projection = True
